@@ -393,6 +393,27 @@ class VCtx:
         CTX.oblige(f"{self.contract.key}#{clause}", c.t, "lemma", meta={"scenario": self.scenario})
         CTX.assume(c.t)
 
+    def lemma_eq(self, clause, a, b):
+        self.lemma(clause, as_sym(a) == as_sym(b))
+
+    def derive_nonneg(self, on=True):
+        """record Sigma >= 0 (WS.sum_nonneg) whenever the summand is provably >= 0 on its
+        range; costs one solver call per Sigma, so contracts opt in"""
+        CTX.derive_nonneg = on
+
+    def use_lemma(self, name, instance):
+        """assume an instance of a lemma that is machine-checked in lean/Lemmas.lean
+        (WS.<name>); the instance's hypotheses must be part of `instance` as an implication
+        or have been established before.  Recorded in the evidence."""
+        import os, re
+
+        src = open(os.path.join(os.path.dirname(os.path.dirname(os.path.dirname(os.path.abspath(__file__)))),
+                                "lean", "Lemmas.lean")).read()
+        if not re.search(r"\b(theorem|lemma)\s+" + re.escape(name) + r"\b", src):
+            raise RuntimeError(f"lemma WS.{name} is not in lean/Lemmas.lean")
+        CTX.events.append(("lean_lemma", name))
+        CTX.assume(as_sym(instance).t)
+
     def ensure_eq(self, clause, got, want, kind="post"):
         g, w = as_sym(got), as_sym(want)
         gn, wn = core.to_z3_bool(g.nan), core.to_z3_bool(w.nan)
@@ -410,6 +431,25 @@ class VCtx:
 
     def ensure_dims(self, clause, da, dims):
         self.ensure_true(clause, tuple(da.dims) == tuple(dims), f"dims {tuple(da.dims)} expected {tuple(dims)}")
+
+    def footprint(self, clause, value, pos, inputs):
+        """C06: the result at position `pos` mentions the inputs only at that position.
+        inputs: list of (input Arr with ._uf, tuple of axis numbers that are position axes,
+        tuple of the position index terms).  Every application of the input's function symbol
+        inside the result term (including inside Sigma kernels) must have its position
+        arguments equal to pos."""
+        t = as_sym(value)
+        terms = [t.real() if not t.is_bool else t.t]
+        if t.nan is not False:
+            terms.append(core.to_z3_bool(t.nan))
+        mentions = []
+        for uf_, axes, pidx in inputs:
+            for term in terms:
+                for args in core.uf_mentions(term, uf_):
+                    mentions.append(z3.And(*[args[a] == as_sym(p).t for a, p in zip(axes, pidx)]) if axes else z3.BoolVal(True))
+        goal = z3.And(*mentions) if mentions else z3.BoolVal(True)
+        CTX.oblige(f"{self.contract.key}#{clause}", goal, "frame",
+                   meta={"scenario": self.scenario, "mentions": len(mentions)})
 
     def value(self, da, pos):
         if isinstance(da, X.DA):
@@ -562,6 +602,16 @@ class CCtx:
     def lemma(self, clause, cond):
         self.ensure(clause, cond)
 
+    def lemma_eq(self, clause, a, b):
+        self.ensure_eq(clause, a, b)
+
+    def derive_nonneg(self, on=True):
+        pass
+
+    def use_lemma(self, name, instance):
+        # the lemma is machine-checked in Lean; nothing to evaluate numerically
+        self.checked += 1
+
     def ensure_eq(self, clause, got, want, kind="post"):
         self.checked += 1
         g = float(real_np.asarray(got))
@@ -579,6 +629,11 @@ class CCtx:
 
     def ensure_dims(self, clause, da, dims):
         self.ensure_true(clause, tuple(da.dims) == tuple(dims), f"dims {tuple(da.dims)} expected {tuple(dims)}")
+
+    def footprint(self, clause, value, pos, inputs):
+        """concrete twin: recorded by the contract as a perturbation test (see
+        contracts/independence.py); nothing to do for a single evaluation"""
+        self.checked += 1
 
     def value(self, da, pos):
         if hasattr(da, "isel"):
